@@ -18,7 +18,10 @@ use candid::IDLArgs;
 use serde::{Deserialize, Serialize};
 use std::collections::BTreeMap;
 
-pub const TICK_CAP: u64 = 3_000_000;
+/// 1M ticks: with the largest corpus element (about 1.1 KB) a vector cannot grow past the allocator's
+/// 2 GiB single-request ceiling before the cap stops the run, so an unmetered bomb ends as
+/// "inconclusive" instead of as an allocation abort
+pub const TICK_CAP: u64 = 1_000_000;
 /// ticks <= TICK_A * quota + TICK_B * len + TICK_C when a decoding quota is set
 /// (calibrated on the unchanged tree: largest observed ticks/(quota+len+1) is below 1.5; x8 and more)
 pub const TICK_A: f64 = 16.0;
@@ -74,6 +77,8 @@ pub enum Damage {
 pub enum Byz {
     /// chain of `depth` opt (or vec) types; value nests as deep as `value_depth`
     DeepChain { vec: bool, depth: u32, value_depth: u32 },
+    /// chain of `depth` table entries table_i = record {0 : table_{i+1}} (or variant); the last one is `record {}`
+    DeepFields { variant: bool, depth: u32 },
     /// type T = record {0: T} (or variant), value bytes appended
     SelfRef { variant: bool, mutual: bool },
     /// vec of zero-sized elements with a huge count
@@ -253,6 +258,28 @@ pub fn build_byz(b: &Byz) -> Vec<u8> {
                 m.push(0x01); // opt: some / vec: one element
             }
             m.push(0x00);
+        }
+        Byz::DeepFields { variant, depth } => {
+            let d = (*depth).max(1) as u64;
+            m.extend(leb(d));
+            for i in 0..d {
+                m.push(if *variant { 0x6b } else { 0x6c });
+                if i + 1 < d {
+                    m.push(0x01);
+                    m.push(0x00);
+                    m.extend(sleb(i as i64 + 1));
+                } else if *variant {
+                    m.extend([0x01, 0x00, 0x7f]);
+                } else {
+                    m.push(0x00);
+                }
+            }
+            m.extend([0x01, 0x00]);
+            if *variant {
+                for _ in 0..d.min(64) {
+                    m.push(0x00);
+                }
+            }
         }
         Byz::SelfRef { variant, mutual } => {
             let op = if *variant { 0x6b } else { 0x6c };
@@ -487,7 +514,8 @@ fn gen_damage(rng: &mut Rng, approx_len: usize) -> Damage {
 }
 
 fn gen_byz(rng: &mut Rng) -> Byz {
-    match rng.below(15) {
+    match rng.below(16) {
+        15 => Byz::DeepFields { variant: rng.chance(1, 3), depth: *rng.pick(&[10u32, 100, 1000, 5000, 9999, 10000]) },
         0 => Byz::DeepChain { vec: rng.chance(1, 2), depth: *rng.pick(&[10u32, 50, 500, 5000, 9999, 10000]), value_depth: *rng.pick(&[0u32, 10, 500, 5000, 50_000]) },
         1 => Byz::SelfRef { variant: rng.chance(1, 2), mutual: rng.chance(1, 2) },
         2 | 3 => Byz::ZeroSized { elem: rng.below(5) as u8, count_log2: *rng.pick(&[10u8, 16, 20, 24, 32, 40, 63]), nested: rng.chance(1, 3) },
